@@ -12,10 +12,10 @@ package leaderx
 
 import (
 	"context"
-	"strings"
 	"fmt"
 	"os"
 	"path/filepath"
+	"strings"
 	"testing"
 	"time"
 
